@@ -23,6 +23,12 @@ def scn_flow():
     return dict(name="flow", prefix=(), sigma=["if", "elsif", "else", "true", "keep", "stop", ";", "{", "}"])
 
 
+def scn_flowblocks():
+    """block structure with whole headers as single symbols: reaches deep nesting / sibling situations (else/elsif as first
+    command of a block while the top-level result ends in an if, chains inside chains) within few symbols"""
+    return dict(name="flowblocks", prefix=(), sigma=["if true {", "elsif true {", "else {", "}", "keep ;", "if false { }"])
+
+
 def scn_tests():
     return dict(name="tests", prefix=(),
                 sigma=["if", "not", "anyof", "allof", "true", "false", "header", "STR", ",", "(", ")", "{", "}", ";"])
